@@ -258,6 +258,7 @@ func transportFault(lines []logLine, tag string, from, to time.Time) (bool, stri
 // whether the client ever joined it.
 type chanEp struct {
 	start, end time.Time
+	last       time.Time // last line about the end of this channel (a writer can still take and lose a packet until it has stopped)
 	ended      bool
 	clientIn   bool
 	serverIn   bool
@@ -285,13 +286,15 @@ func episodes(lines []logLine, tag string) []chanEp {
 				eps[len(eps)-1].serverIn = true
 			}
 		case strings.Contains(l.s, "indicated channel close") || strings.Contains(l.s, "Breaking Channel") ||
-			strings.Contains(l.s, "Closed Channel") || (l.lv == 'E' && inChannelPath(l)):
+			strings.Contains(l.s, "Closed Channel") || strings.Contains(l.s, "channel socket closed") || (l.lv == 'E' && inChannelPath(l)):
 			if len(eps) == 0 {
 				eps = append(eps, chanEp{start: l.t, clientIn: true, serverIn: true})
 			}
-			if e := &eps[len(eps)-1]; !e.ended {
+			e := &eps[len(eps)-1]
+			if !e.ended {
 				e.ended, e.end, e.line = true, l.t, l.s
 			}
+			e.last = l.t
 		}
 	}
 	return eps
@@ -327,7 +330,7 @@ func chanVerdict(lines []logLine, tag string, offs []time.Time, from, to time.Ti
 		}
 	}
 	for _, e := range episodes(lines, tag) {
-		if e.ended && e.end.Before(from.Add(-5*time.Millisecond)) {
+		if e.ended && e.last.Before(from.Add(-5*time.Millisecond)) {
 			continue
 		}
 		if !e.ended {
@@ -1092,10 +1095,8 @@ func runHist(h Hist, idSeed uint64) (res HRes) {
 					// the harness saw the channel bit but the log shows no channel around the job:
 					// judge it like a polling job (transport errors excuse it), else it is a loss
 					// with the channel requested and nothing wrong logged
-					kind, j.inChan = "chan-open", false
-					if ok, _ := transportFault(logLines, tag, j.tTask, verdictAt); !ok {
-						j.inChan = true
-					}
+					// (no channel around it in the log: a polling-mode job)
+					j.inChan = false
 				}
 			}
 			switch {
@@ -1124,8 +1125,10 @@ func runHist(h Hist, idSeed uint64) (res HRes) {
 				}
 			}
 			c.mu.Unlock()
-			if why != "" {
-				why = "; first sign of the channel end: " + clip(why, 140)
+			if why != "" || kind == "chan-open" {
+				if why != "" {
+					why = "; first sign of the channel end: " + clip(why, 140)
+				}
 				if kind != "chan" {
 					for _, l := range logLines {
 						if strings.Contains(l.s, tag) && l.t.After(j.tTask.Add(-150*time.Millisecond)) && l.t.Before(j.tTask.Add(400*time.Millisecond)) {
